@@ -11,6 +11,30 @@ def fnv(bs, basis, prime, bits):
     return h
 
 
+def pcg_script(seed, steps):
+    """PCG32 (XSH-RR) stepped independently: steps = [(kind r|f|g, lo, hi)] on one state seeded like gp_new_random_state"""
+    M64 = 2**64 - 1
+    st = {"s": 0}
+    def draw():
+        old = st["s"]; st["s"] = (old * PCG_M + PCG_INC) & M64
+        x = (((old >> 18) ^ old) >> 27) & 0xFFFFFFFF; rot = old >> 59
+        return ((x >> rot) | (x << ((-rot) & 31))) & 0xFFFFFFFF
+    draw(); st["s"] = (st["s"] + seed) & M64; draw()                # pcg32_srandom_r
+    want = []
+    for c, lo, hi in steps:
+        if c in "rf": want.append(c + str(draw()))
+        else:
+            span = (hi - lo + 1) & 0xFFFFFFFF
+            if span == 0: v = draw()
+            else:
+                thr = ((1 << 32) - span) % span
+                while True:
+                    v = draw()
+                    if v >= thr: v %= span; break
+            want.append("g%d" % (lo + v))
+    return want
+
+
 def oracle(case, out):
     """independent statement of the property on the implementation's transcript"""
     t = case[0].split()
@@ -57,6 +81,19 @@ def oracle(case, out):
         for v in o.split():
             if not (lo <= int(v) <= hi):
                 return "random_range(%d,%d) produced %s" % (lo, hi, v)
+    elif op == "mixfixed":
+        prog = {0: (7, [("r", 0, 0)] * 4 + [("f", 0, 0), ("g", -5, 5)]), 1: (12345, [("g", 0, 9), ("f", 0, 0), ("r", 0, 0), ("g", -100, 100)]),
+                2: (0, [("f", 0, 0), ("f", 0, 0), ("g", 1, 6), ("r", 0, 0)])}[int(t[2])]
+        want = pcg_script(prog[0], prog[1])
+        if o.split() != want:
+            return "fixed program %s: draws %s, the PCG32 stream of one state gives %s" % (t[2], o.strip(), " ".join(want))
+    elif op == "mix":
+        seed, lo, hi, script = int(t[2]), int(t[3]), int(t[4]), t[5]
+        want = pcg_script(seed, [(c, lo, hi) for c in script])
+        if o.split() != want:
+            k = next((i for i, (a, b) in enumerate(zip(o.split(), want)) if a != b), min(len(o.split()), len(want)))
+            return "mix(seed %d, [%d,%d], %s): draw %d is %s, the PCG32 stream of one state gives %s" % (
+                seed, lo, hi, script, k + 1, (o.split() + ["-"])[k], (want + ["-"])[k])
     elif op == "frand":
         if "OUT" in o:
             return "frandom outside [0,1): " + o
@@ -137,6 +174,14 @@ def gen(ctx):
             sd = seed_for_output(want, draw, r.getrandbits(27))
             add("rand %d %d" % (sd, 4))
             add("frand %d %d" % (sd, 4))
+    # one state shared by the three draw functions (also as straight-line code: the scripts rrrrfg and frgfrg)
+    for _ in range(60 if quick else 3000):
+        a, b = r.randrange(-2**31, 2**31), r.randrange(-2**31, 2**31)
+        lo, hi = (min(a, b), max(a, b)) if r.random() < 0.6 else (-5, 5)
+        sc = r.choice(["rrrrfg", "frgfrg", "".join(r.choice("rfg") for _ in range(r.randrange(2, 13)))])
+        add("mix %d %d %d %s" % (r.randrange(U64), lo, hi, sc))
+    for k in range(3):
+        add("mixfixed %d" % k)
     grid = [-2**31, -2**31 + 1, -2**30, -7, -1, 0, 1, 5, 2**30, 2**31 - 2, 2**31 - 1]
     for lo in grid:
         for hi in grid:
